@@ -50,6 +50,7 @@ bool disk_get(const std::string &path, std::vector<uint8_t> &bytes);
 bool disk_exists(const std::string &path);
 void disk_remove(const std::string &path);
 void disk_clear_prefix(const std::string &prefix);
+void disk_mkdirs(const std::string &dir);            // no-op on the simulated disk
 
 // Begin/end an operation on the calling thread. While an op is open, every simulated
 // I/O call made by this thread is counted, faulted and (for writes) traced.
